@@ -262,7 +262,7 @@ class C07(Driver):
             A("  (let [[ok v] (protect %s)] (sim/ev :ret %d ok v))" % (body, i))
             if st["end"] == "tie" and st["kind"] == "read":
                 # whatever the tie's outcome, the bytes the writer got rid of are either in the result or still there
-                A("  (sim/ev :left %d (let [[ok b] (protect (ev/read (P [%d :r]) 4096 @\"\" 0.05))] (if (and ok b) (length b) 0)))" % (i, i))
+                A("  (sim/ev :left %d (do (var tot 0) (forever (def [ok b] (protect (ev/read (P [%d :r]) 4096 @\"\" 0.05))) (if (and ok b (> (length b) 0)) (+= tot (length b)) (break))) tot))" % (i, i))
         if plan.get("nest"):
             A("  ))")
         A("  (sim/ev :vdone))")
